@@ -6,6 +6,12 @@ ALL = ["C%02d" % i for i in range(1, 21)]
 
 # id -> (technique, level text, level note, design ref)
 CHECKS = {
+    "C01": (
+        "proptest-generated programs of the well-defined fragment (+ replies, RUN/RUN n/CONT, TRON, quanta) against a reference interpreter written from the manual; transcripts and final variables must be identical",
+        "Exploration with a reference model: 150k generated programs per quick run (millions in thorough), each composing statement kinds freely (nesting, multi-statement lines, loops left early, shared FOR/GOSUB stack, ON ranges, error endings with line numbers, TRON trace), executed by the implementation and by a statement-by-statement interpreter that has no compiler, no addresses and no shared code; any difference in output, prompts, trace, error code or line is reported with the shrunk program. A guard compares the parser's AST of every generated line with the generator's tree.",
+        "Trusted base: model.rs/sem.rs (decisions A1..A18, DESIGN.md Appendix A). Only the generated fragment is covered; lenient zones: trace of code-less lines and of user-function bodies, error line inside function bodies, CONT after an error.",
+        "6 C01",
+    ),
     "C02": (
         "proptest-generated typed expression trees (all operators, functions, literal spellings, boundary operands, minimal and redundant parenthesisation) + exhaustive operator x operand-pair matrix, against a reference evaluator written from the manual",
         "Exploration with a reference model that yields value and type (or the BASIC error) for every tree; the implementation is observed through PRINT, two type probes and five typed stores per case. The operator x type-pair x boundary-value matrix (18432 cases) is complete; random trees sample compositions (precedence, associativity, promotion chains).",
